@@ -1037,6 +1037,47 @@ def _inject(rng, items, label):
         else:
             items.append(ext_of(t, **{key: [copy.deepcopy(m)]}))
             items.append(ext_of(t, **{key: [copy.deepcopy(m)]}))
+    elif label == "ext-required-field-invalidates-default":
+        # a default that IS a value of the input type as defined, and is not one once an `extend input` block of the
+        # same document has added a required field (hunt3 C11/6): argument / input field / directive argument, written
+        # in a definition or in an extension block, extension before or after, plain / list / nested literal
+        blank = {"desc": None, "interfaces": [], "fields": [], "members": [], "values": [], "input_fields": [], "dirs": []}
+        stale = dict(blank, k="type", kind="input", name="ZzStale",
+                     input_fields=[{"name": "a", "desc": None, "type": {"k": "named", "n": "Int"}, "default": None, "dirs": []}])
+        req = dict(blank, k="ext", kind="input", name="ZzStale",
+                   input_fields=[{"name": "b", "desc": None, "type": {"k": "nonNull", "t": {"k": "named", "n": rng.choice(["Int", "String", "ZzStale"])}},
+                                  "default": None, "dirs": []}])
+        form = rng.choice(["plain", "list", "nested"])
+        one = rng.choice([{"k": "obj", "fs": []}, {"k": "obj", "fs": [{"name": "a", "value": {"k": "int", "v": "1", "f": "1.0"}}]}])
+        extra = []
+        if form == "plain":
+            ty, lit = {"k": "named", "n": "ZzStale"}, one
+        elif form == "list":
+            ty, lit = {"k": "list", "t": {"k": "nonNull", "t": {"k": "named", "n": "ZzStale"}}}, {"k": "list", "vs": [one, {"k": "obj", "fs": []}]}
+        else:
+            extra = [dict(blank, k="type", kind="input", name="ZzOuter",
+                          input_fields=[{"name": "i", "desc": None, "type": {"k": "named", "n": "ZzStale"}, "default": None, "dirs": []}])]
+            ty, lit = {"k": "named", "n": "ZzOuter"}, {"k": "obj", "fs": [{"name": "i", "value": one}]}
+        slot = {"name": "zz", "desc": None, "type": ty, "default": lit, "dirs": []}
+        where = rng.choice(["argument", "input-field", "directive"])
+        obj = pick(("object",))
+        if where == "directive" or obj is None:
+            user = {"k": "directive", "name": "zzStale", "desc": None, "args": [slot], "locations": ["FIELD"]}
+        elif where == "argument":
+            user = ext_of(obj, fields=[{"name": "zz_f", "desc": None, "args": [slot], "type": {"k": "named", "n": "Int"}, "dirs": []}])
+            if rng.random() < 0.5:       # in the definition itself
+                obj["fields"].append(user["fields"][0])
+                user = None
+        else:
+            holder = dict(blank, k="type", kind="input", name="ZzHolder", input_fields=[slot])
+            if rng.random() < 0.5:
+                holder["input_fields"] = [{"name": "k", "desc": None, "type": {"k": "named", "n": "Int"}, "default": None, "dirs": []}]
+                extra.append(dict(blank, k="ext", kind="input", name="ZzHolder", input_fields=[slot]))
+            user = holder
+        new = [stale] + extra + ([user] if user is not None else [])
+        new.insert(rng.randint(0, len(new)), req)
+        for n in new:
+            items.insert(rng.randint(0, len(items)), n)
     elif label == "ext-dup-input-field":
         t = pick(("input",), "input_fields")
         items.append(ext_of(t, input_fields=[copy.deepcopy(t["input_fields"][0])]))
@@ -1171,5 +1212,5 @@ INVALID_LABELS = [
     "ext-new-field-twice", "ext-new-field-one-block", "ext-new-value-twice", "ext-new-value-one-block",
     "ext-new-input-field-twice", "ext-new-input-field-one-block", "ext-new-member-twice", "ext-new-member-one-block",
     "ext-new-interface-twice", "ext-new-interface-one-block",
-    "builtin-name-definition", "ext-wrong-kind-builtin",
+    "builtin-name-definition", "ext-wrong-kind-builtin", "ext-required-field-invalidates-default",
 ]
